@@ -25,7 +25,7 @@ KIND_TEXT = {
     "KInvented": "more Status entries (completes + warnings) than registered pipelines, or, with a context never cancelled, not exactly one per pipeline",
     "KNoGraph": "Send for a type without graph must fail, return an empty Status and invoke nothing",
     "KProto": "a protocol event (hand-off, exit, wg.Wait, close, collector exit) that is not an enabled step of the model",
-    "KLeak": "every node had returned, yet an invocation of doProcess never exited or the status channel was never closed (goroutine left behind)",
+    "KLeak": "Send had returned and every node had returned, yet a goroutine created under that Send was still there (an invocation of doProcess that never exited, a status channel never closed, or — goroutine dump diff — a goroutine of the library / of a context derived from the caller's context)",
     "KHang": "Send did not return",
 }
 RELEVANT = {
@@ -35,12 +35,12 @@ RELEVANT = {
 }
 
 ARGS = {
-    ("C01", "quick"): ["-modes", "shapes,random", "-shape-pipelines", "3", "-random", "350"],
-    ("C01", "thorough"): ["-modes", "shapes,random,cancel", "-shape-pipelines", "3", "-random", "4000", "-cancel-random", "10", "-cancel-reps", "2"],
-    ("C02", "quick"): ["-modes", "thresholds,cancel", "-thr-pipelines", "3", "-cancel-random", "2"],
-    ("C02", "thorough"): ["-modes", "thresholds,cancel,random", "-thr-pipelines", "4", "-cancel-random", "12", "-cancel-reps", "3", "-random", "1500"],
-    ("C03", "quick"): ["-modes", "cancel,random", "-cancel-random", "6", "-random", "150"],
-    ("C03", "thorough"): ["-modes", "cancel,random,shapes", "-cancel-random", "40", "-cancel-reps", "4", "-random", "2500", "-shape-pipelines", "3"],
+    ("C01", "quick"): ["-modes", "paths,shapes,random", "-shape-pipelines", "3", "-random", "350"],
+    ("C01", "thorough"): ["-modes", "paths,shapes,random,cancel", "-shape-pipelines", "3", "-random", "4000", "-cancel-random", "10", "-cancel-reps", "2"],
+    ("C02", "quick"): ["-modes", "paths,thresholds,cancel", "-thr-pipelines", "3", "-cancel-random", "2"],
+    ("C02", "thorough"): ["-modes", "paths,thresholds,cancel,random", "-thr-pipelines", "4", "-cancel-random", "12", "-cancel-reps", "3", "-random", "1500"],
+    ("C03", "quick"): ["-modes", "paths,cancel,random", "-cancel-random", "6", "-random", "150"],
+    ("C03", "thorough"): ["-modes", "paths,cancel,random,shapes", "-cancel-random", "40", "-cancel-reps", "4", "-random", "2500", "-shape-pipelines", "3"],
 }
 
 ASSUMPTIONS = [
@@ -48,6 +48,8 @@ ASSUMPTIONS = [
     "Go runtime semantics of unbuffered channels, select (any ready arm may fire), sync.WaitGroup, context cancellation and sync.Map.Range over a registry that does not change during the Send are modelled, not verified",
     "the steps of graph.process/doProcess are atomic at the granularity of the verif hook points; the recorded order is a linearization (cancellation is recorded before cancel() is called under the recorder lock; a rendezvous is recorded sender first)",
     "only linear pipelines (what the public API builds); fan-out graphs of the test-only linkNodesAndSinks are not modelled",
+    "goroutine-leak oracle: goroutine dumps before the call and after Send and all nodes returned (settle time 250 ms) are compared; only new goroutines running or created by library / context-package code count; the caller's context (context.WithCancel or a context type of the harness's own) is still live at that moment unless the script cancelled it",
+    "warnings are identified by the error VALUE the node returned (interface identity through a registry), not by what it wraps",
     "wall-clock promptness of Send's return after cancellation is measured (latency statistics in the evidence), not proved; only a Send that fails to return within 3 s is an alarm",
 ]
 
@@ -220,6 +222,8 @@ def replay(ctx, rec, path):
     print("schedule script:", json.dumps(rec["case"].get("sched")))
     print("trace of run 1:", " ".join(t.get("e", "") + (("(p%s,%s)" % (t.get("p", 0), t.get("k", 0))) if "p" in t else "") for t in first.get("observed", {}).get("trace", [])))
     print("status of run 1:", {k: first.get("observed", {}).get(k) for k in ("complete", "complete_sinks", "warnings", "err", "err_ctx", "returned", "trace_complete")})
+    if first.get("observed", {}).get("goroutines_left_by_this_send"):
+        print("goroutines created under this Send that were still there after it returned (dump diff):\n" + first["observed"]["goroutines_left_by_this_send"])
     if first.get("observed", {}).get("goroutines"):
         print("goroutines left in eventlogger.(*graph):\n" + first["observed"]["goroutines"])
     rows = [(int(c), int(s), EVK.get(int(e), e), k) for c, s, e, k in mism]
